@@ -12,6 +12,7 @@ import CnvVerif.Driver.Export
 import CnvVerif.Driver.Reference
 import CnvVerif.Driver.Coverage
 import CnvVerif.Driver.Effects
+import CnvVerif.Driver.EffectsExt
 import CnvVerif.Driver.Bins
 import CnvVerif.Driver.Vcf
 import CnvVerif.Driver.Descriptives
@@ -20,7 +21,7 @@ import CnvVerif.Driver.Stats
 open Lean CnvVerif.Drv
 
 def handlers : List (String → Json → Option Json → R (Option Json)) :=
-  [handleInterval, handleCall, handleSegFilter, handleTile, handleCenter, handleFix, handleAccess, Genes.handleGenes, handleFormats, handleExport, Reference.handleReference, handleCoverage, handleEffects, handleBins, handleVcf, handleDescriptives, Haar.handleHaar, handleStats]
+  [handleInterval, handleCall, handleSegFilter, handleTile, handleCenter, handleFix, handleAccess, Genes.handleGenes, handleFormats, handleExport, Reference.handleReference, handleCoverage, handleEffects, handleEffectsExt, handleBins, handleVcf, handleDescriptives, Haar.handleHaar, handleStats]
 
 def dispatch (op : String) (inp : Json) (impl : Option Json) : R Json := do
   for h in handlers do
